@@ -489,6 +489,9 @@ pub fn execute(sc: &RScenario, opts: &ExecOpts) -> RunReport {
     if !errors.is_empty() {
         j.rep.exercised = [true, true, true, true];
         j.rep.probes.hit("scenarios_with_parse_error");
+        if errors.iter().any(|e| prep.toks.len() > 250 && (e.lexeme.start as u64) < 40) {
+            j.rep.probes.hit("errors_followed_by_more_input_than_the_ranking_window");
+        }
         if errors.len() > 1 {
             j.rep.probes.hit("multi_error_inputs");
         }
@@ -1422,6 +1425,55 @@ fn gen_long_junk(r: &mut Rng) -> RScenario {
     }
 }
 
+/// Inputs on which the ranking window (TRY_PARSE_AT_MOST = 250 lexemes beyond the error) binds:
+/// the grammar is wrapped into a list (`RL: RL R0 't99' | R0 't99';`), the input is 300-700
+/// lexemes of sentences of the inner grammar, and the edits that make it erroneous all lie in its
+/// first dozen lexemes - so every candidate repair is followed by more error-free input than the
+/// window holds.
+fn gen_long_tail(r: &mut Rng, gp: &GenParams) -> Option<RScenario> {
+    let inner = if r.chance(30) { r.pick(gram::CORPUS).1.to_string() } else { gram::gen_template(r) };
+    if !inner.starts_with("%start R0\n") {
+        return None;
+    }
+    let grammar = format!("%start RL\n{}RL: RL R0 't99' | R0 't99';\n", &inner["%start R0\n".len()..]);
+    let unit = r.chance(70);
+    let mut sc = gen_with_grammar(r, "long-tail".into(), grammar.clone(), gp, unit)?;
+    let hash_seed = sc.hash_seed;
+    let built = match sim_process(hash_seed, None, || gram::build(&inner)).0 {
+        SimOutcome::Ok(Ok(b)) => b,
+        _ => return None,
+    };
+    let grm = &built.grm;
+    let ml = gram::min_lens(grm);
+    let target = 300 + r.below(400) as usize;
+    let mut toks: Vec<String> = vec![];
+    let mut tries = 0;
+    while toks.len() < target {
+        tries += 1;
+        if tries > 2000 {
+            return None;
+        }
+        let Some(t) = gram::derive(grm, &ml, r, 12) else { continue };
+        toks.extend(t.iter().map(|x| grm.token_name(TIdx(*x)).unwrap().to_string()));
+        toks.push("t99".into());
+    }
+    let names: Vec<String> = grm.iter_tidxs().filter(|t| *t != grm.eof_token_idx()).map(|t| grm.token_name(t).unwrap().to_string()).chain(["t99".to_string()]).collect();
+    for _ in 0..1 + r.below(3) {
+        let i = r.below(12.min(toks.len() as u64)) as usize;
+        match r.below(3) {
+            0 => {
+                toks.remove(i);
+            }
+            1 => toks.insert(i, r.pick(&names).clone()),
+            _ => toks[i] = r.pick(&names).clone(),
+        }
+    }
+    sc.gaps = toks.iter().map(|_| if r.chance(70) { 0 } else { 1 }).collect();
+    sc.zero_width = vec![];
+    sc.tokens = toks;
+    Some(sc)
+}
+
 pub fn gen_base(r: &mut Rng, gp: &GenParams) -> Option<RScenario> {
     let which = r.below(100);
     if which == 99 && r.chance(50) {
@@ -1429,6 +1481,9 @@ pub fn gen_base(r: &mut Rng, gp: &GenParams) -> Option<RScenario> {
     }
     if which == 98 && r.chance(3) {
         return Some(gen_long_junk(r));
+    }
+    if which == 97 && r.chance(40) {
+        return gen_long_tail(r, gp);
     }
     let (origin, grammar) = if which < 12 {
         let (n, g) = *r.pick(gram::CORPUS);
